@@ -1,6 +1,7 @@
 import GrinVerif.Drv.Common
 import GrinVerif.Model.Kv
 import GrinVerif.Model.KvSpace
+import GrinVerif.Model.KvResize
 import GrinVerif.Model.ChainStore
 /-! Driver glue for the `kv` domain (property C18): folds the model `GV.Kv.St` over the op lines
 of `harness/src/bin/kv.rs` and recomputes every answer.
@@ -16,6 +17,15 @@ Typed layer (`kv cs-new`, `kv cs-obj`, `kv cs …`, `kv cs-out …`; run `cstore
 of `Model/ChainStore.lean` (each a get/put on a determined key, `typed_getters_refine_kv`).  A
 typed object is declared once (`cs-obj name key aux value`: the real hash, for headers the real
 `prev_hash`, the real serialisation) and referred to by name afterwards.
+
+`kv rz-new <map> <chunk>` / `kv rz-batch same=<k> other=<j> settled=<0|1> used=<bytes> => <map>`:
+run `selfiter` — one `Store::batch()` … commit, issued while the calling thread holds `k` iterators
+of its own and the other thread `j`; `settled=1`: everything had been closed and the waiter thread
+given time before the call.  The driver folds the resize protocol model with its guard flags
+(`Model/KvResize.lean`, `resize_guard_released`, `postponed_resize_happens`) over these lines
+and predicts the map size the meta page shows after the commit (`dropped`: the batch was dropped,
+nothing observable).  With `settled=0` the call races with a pending waiter thread: both orders
+are computed and, when they differ, either is accepted.
 
 `kv space <map> <last_pg> <need> <chunk>`: run `frag` — the batch just executed could allocate at
 most `need` pages; if they fit behind the last page of the map `needs_resize` leaves, the batch
@@ -33,6 +43,8 @@ structure St where
   objs : List (String × (Bytes × Bytes × Val)) := []
   /-- serialised `Tip` of the genesis header (`ChainStore::pibd_head` falls back to it) -/
   genTip : Bytes := []
+  /-- resize protocol state of run `selfiter` -/
+  rz : Kv.REnv := { mapSize := 0, chunk := 1 }
 
 def parseDb (s : String) : Option Nat :=
   if s = "def" then some 0 else (nat? s).map (· + 1)
@@ -180,8 +192,31 @@ def handleCs (st : St) (args : List String) (impl : String) : St × Verdict :=
       | some r => (st, cmpSpec r impl)
       | none => (st, .unknown)
 
+def kvArg (args : List String) (k : String) : Option Nat :=
+  ((args.find? (·.startsWith (k ++ "="))).map (fun a => (a.drop (k.length + 1)).toString)).bind String.toNat?
+
 def handle (st : St) (args : List String) (impl : String) : St × Verdict :=
   match args with
+  | ["rz-new", m, c] => match nat? m, nat? c with
+    | some m, some c => ({ st with rz := rinit m c }, .ok)
+    | _, _ => (st, .unknown)
+  | "rz-batch" :: rest =>
+    match kvArg rest "same", kvArg rest "other", kvArg rest "settled", kvArg rest "used" with
+    | some same, some other, some settled, some used =>
+      -- before the call everything of the previous batch is closed
+      let e0 := { st.rz with openTxs := 0 }
+      -- the waiter (if pending) polls before the call ...
+      let a := batchStart (waiterStep e0) used same other
+      -- ... or the call finds the guard busy and `enter_tx` waits for the waiter (only foreign or no
+      -- transactions open), or proceeds nested on the old map (own iterator open)
+      let b := if settled = 1 then a else
+        let r := batchStart e0 used same other
+        if same = 0 then waiterStep { r with openTxs := 0 } else r
+      if impl = "dropped" then ({ st with rz := a }, .ok)
+      else if toString a.mapSize = impl then ({ st with rz := a }, .ok)
+      else if toString b.mapSize = impl then ({ st with rz := b }, .ok)
+      else ({ st with rz := a }, .diff (toString a.mapSize))
+    | _, _, _, _ => (st, .unknown)
   | ["cs-new", tip] => match parseHex tip with
     | some t => ({ m := {}, dbs := ChainStore.chainDbs, held := none, objs := [], genTip := t }, cmpSpec "ok" impl)
     | none => (st, .unknown)
